@@ -45,9 +45,13 @@ impl Src for KaniSrc {
 }
 pub struct Report {
    pub failed: Vec<&'static str>,
+   /// decoded input values (native replay only)
+   pub notes: Vec<String>,
 }
 impl Report {
-   pub fn new() -> Self { Report { failed: vec![] } }
+   pub fn new() -> Self { Report { failed: vec![], notes: vec![] } }
+   #[cfg(not(kani))]
+   pub fn note(&mut self, s: String) { if self.notes.len() < 8 { self.notes.push(s); } }
    pub fn check(&mut self, name: &'static str, ok: bool) {
       if !ok && !self.failed.contains(&name) {
          self.failed.push(name);
